@@ -260,6 +260,16 @@ def run(ctx: Ctx) -> RuleResult:
     ok = len(comp) == 1 and len(comp[0].generators) == 1 and len(comp[0].generators[0].ifs) == 1 \
         and norm(comp[0].generators[0].ifs[0]).replace(' ', '') == '%s.namenotinself.ignore_types' % norm(comp[0].generators[0].target) \
         and norm(comp[0].generators[0].iter) == 'self.terminals'
+    if ok:
+        # ... and that list is what the scanner is built from
+        ctor = [c for c in ss.body_nodes() if isinstance(c, ast.Call) and norm(c.func) == 'Scanner' and c.args]
+        loc_ = {a.targets[0].id: a.value for a in ss.body_nodes() if isinstance(a, ast.Assign) and len(a.targets) == 1 and isinstance(a.targets[0], ast.Name)}
+        ok = len(ctor) == 1
+        if ok:
+            a0 = ctor[0].args[0]
+            if isinstance(a0, ast.Name) and a0.id in loc_:
+                a0 = loc_[a0.id]
+            ok = a0 is comp[0]
     res.ob('%s %s' % (ss.loc(), ss.qual), 'candidates are searched among the non-ignored terminals only', ok)
     if not ok:
         bad_f = ss
